@@ -192,7 +192,12 @@ func (t *test) RemoveClient(id string) {
 }
 
 func (t *test) Start(ctx context.Context, c orgvarlinkcertification.VarlinkCall) error {
-	return c.ReplyStart(ctx, t.NewClient().id)
+	client := t.NewClient()
+	if client == nil {
+		return c.ReplyCertificationError(ctx, nil, nil)
+	}
+
+	return c.ReplyStart(ctx, client.id)
 }
 
 func (t *test) Test01(ctx context.Context, c orgvarlinkcertification.VarlinkCall, client_id_ string) error {
